@@ -44,7 +44,10 @@ func crashScenario(c *sim.Ctx) (crash.Scenario, []string, int, string) {
 		// a completed transaction leaves a persisted (zero-headered) journal behind
 		setup = append(setup, "UPDATE t SET n = 1 WHERE id = 1")
 	}
-	sc := crash.Scenario{Pragmas: []string{"PRAGMA journal_mode=" + jm, "PRAGMA cache_size=5"}}
+	// the sync mode changes what the journal header looks like while the transaction
+	// runs (record count 0 / -1 / n) and which syncs separate the writes
+	syncMode := []string{"FULL", "NORMAL", "OFF", "FULL"}[s.Draw(4, "synchronous")]
+	sc := crash.Scenario{Pragmas: []string{"PRAGMA journal_mode=" + jm, "PRAGMA cache_size=5", "PRAGMA synchronous=" + syncMode}}
 	ntx := 1 + s.Draw(3, "ntxn")
 	for t := 1; t <= ntx; t++ {
 		var txn []string
